@@ -112,6 +112,23 @@ def build_checked(tree, cx, vars_, errors):
     return r
 
 
+def build_plain(tree, cx, vars_):
+    """the same construction with no look at any intermediate object (a look may itself change a lazily kept object)"""
+    t = tree[0]
+    if t == "var":
+        return vars_[tree[1]]
+    if t == "one":
+        return cx.mod.one()
+    if t == "zero":
+        return cx.mod.zero()
+    if t in ("add", "sub"):
+        a = build_plain(tree[1], cx, vars_)
+        b = build_plain(tree[2], cx, vars_)
+        return a + b if t == "add" else a - b
+    a = build_plain(tree[1], cx, vars_)
+    return -a if t == "neg" else a * tree[2]
+
+
 def depth(t):
     if t[0] in ("var", "one", "zero"):
         return 0
@@ -147,13 +164,16 @@ def judge(cx, case):
     cx.read_wires()
     errors = []
     before = [rep(v) for v in vars_]
-    lc = build_checked(case["tree"], cx, vars_, errors)
+    if case.get("unobserved"):
+        lc = build_plain(case["tree"], cx, vars_)        # operands are looked at again only after the result was evaluated
+    else:
+        lc = build_checked(case["tree"], cx, vars_, errors)
+    want = backends.eval_tree(case["tree"], [v for _, v in case["vars"]], p)
+    got = cx.value(lc, None)
     if [rep(v) for v in vars_] != before:
         errors.append("a variable's linear combination was altered by later operations")
     if errors:
         return errors[0]
-    want = backends.eval_tree(case["tree"], [v for _, v in case["vars"]], p)
-    got = cx.value(lc, None)
     if got != want:
         return "tree %r on assignment %r evaluates to %d through the backend object, %d in the field" % (case["tree"], case["vars"], got, want)
     return None
@@ -237,7 +257,19 @@ def algebra_shard(name, seed, n_examples):
                 return ["mul", tree(dep + 1), draw(st.one_of(st.integers(-3, 3), st.integers(0, p - 1), st.booleans(),
                                                              st.sampled_from([0, -1, p, p + 1, -p, 2 * p + 1, 1 << 256, (1 << 300) + 1, -(1 << 257)])))]
             t = wide_tree() if wide else tree(0)
-            case = {"config": name, "part": "algebra", "vars": vars_, "tree": t}
+            if wide:
+                # a long combination scaled / negated several times in a row, with nothing reading the intermediate results
+                sc = st.one_of(st.integers(-3, 3), st.sampled_from([0, 2, 3, 5, p - 1, p + 2]))
+                k_ = draw(st.integers(0, 5))
+                if k_ == 1:
+                    t = ["mul", ["mul", t, draw(sc)], draw(sc)]
+                elif k_ == 2:
+                    t = ["neg", ["mul", t, draw(sc)]]
+                elif k_ == 3:
+                    t = ["sub", t, ["mul", ["mul", ["mul", t, draw(sc)], draw(sc)], draw(sc)]]
+                elif k_ == 4:
+                    t = ["neg", ["neg", t]]
+            case = {"config": name, "part": "algebra", "vars": vars_, "tree": t, "unobserved": draw(st.booleans())}
             vs = vars_in(t, [])
             nt = depth(t) >= 2 and len(vs) != len(set(vs)) and any(not 0 <= s < p for s in scalars_in(t, []))
             msg = judge(cx, case)
